@@ -554,7 +554,7 @@ func runProperty(eng *Engine, prop string, timeout time.Duration, dir string) *p
 			go func() {
 				defer wg.Done()
 				defer func() { <-sem }()
-				r := Solve(j.script, dir, "reach."+j.key, 3*time.Second)
+				r := Solve(j.script, dir, "reach."+j.key, 6*time.Second)
 				if r.Status == "unsat" {
 					mu.Lock()
 					pr.vacuous = append(pr.vacuous, j.key)
